@@ -111,7 +111,6 @@ func c08parse(line string) (c08desc, bool) {
 	if len(tk) != 2+len(c08keysOrder) || tk[0] != "c08" || (tk[1] != "hs" && tk[1] != "hsu") {
 		return d, false
 	}
-	d.unauth = tk[1] == "hsu"
 	m := map[string]string{}
 	for _, t := range tk[2:] {
 		kv := strings.Split(t, "=")
@@ -129,7 +128,8 @@ func c08parse(line string) (c08desc, bool) {
 		}
 	}
 	d = c08desc{role: m["role"], suite: m["suite"], tlsv: m["tlsv"], op: m["op"], them: m["them"], der: m["der"],
-		signedby: m["signedby"], time: m["time"], uris: m["uris"], cn: m["cn"], sig: m["sig"], nonce: m["nonce"], id: m["id"], via: m["via"], live: m["live"], decoy: m["decoy"]}
+		signedby: m["signedby"], time: m["time"], uris: m["uris"], cn: m["cn"], sig: m["sig"], nonce: m["nonce"], id: m["id"], via: m["via"], live: m["live"], decoy: m["decoy"],
+		unauth: tk[1] == "hsu"}
 	n := m["ncerts"]
 	if len(n) == 0 || len(n) > 3 {
 		return d, false
